@@ -983,6 +983,7 @@ fn run_case(case: &Case, tgt: Tgt, mode: &Mode, out: &mut Out, hist: &mut Hist) 
         }
         if !f.dflt.is_empty() { hist.add("variant=default-argument-use"); }
         if f.nt != 0 { hist.add(&format!("variant=numthreads-spelling-{}", f.nt)); }
+        if f.fd { hist.add("variant=forward-declaration"); }
     }
     for p in &case.pipes {
         if p.stages.len() == 2 && case.entries[p.stages[0]].stage.as_deref() == Some("Pixel") { hist.add("variant=stages-reversed"); }
@@ -1173,6 +1174,12 @@ fn mutate(case: &mut Case, rng: &mut Rng, hist: &mut Hist) {
             for _ in 0..1 + rng.below(2) {
                 h.dflt.push(*rng.pick(&eligible));
             }
+        }
+    }
+    // forward declarations
+    for f in case.helpers.iter_mut().chain(case.entries.iter_mut()) {
+        if f.dflt.is_empty() && rng.chance(1, 8) {
+            f.fd = true;
         }
     }
     // globals whose initialiser reads resources, calls helpers, reads other globals
